@@ -73,6 +73,23 @@ extern "C" fn on_abort(_sig: libc::c_int) {
     }
 }
 
+/// A logger that formats every record and throws it away: the client's log statements (and the
+/// expressions they evaluate) run as they do in an application with logging switched on.
+/// VERIF_LOG=off leaves logging disabled.
+struct NullLogger;
+impl log::Log for NullLogger {
+    fn enabled(&self, _: &log::Metadata) -> bool {
+        true
+    }
+    fn log(&self, r: &log::Record) {
+        use std::fmt::Write as _;
+        let mut sink = util::CountSink(0);
+        let _ = write!(sink, "{}", r.args());
+    }
+    fn flush(&self) {}
+}
+static NULL_LOGGER: NullLogger = NullLogger;
+
 fn arg(args: &[String], name: &str) -> Option<String> {
     args.iter().position(|a| a == name).and_then(|i| args.get(i + 1).cloned())
 }
@@ -209,6 +226,10 @@ fn main() {
     if std::env::var("VERIF_SYSTEM_ROOTS").is_err() {
         std::env::set_var("SSL_CERT_FILE", "/dev/null");
         std::env::set_var("SSL_CERT_DIR", "/nonexistent");
+    }
+    if std::env::var("VERIF_LOG").map(|v| v != "off").unwrap_or(true) {
+        let _ = log::set_logger(&NULL_LOGGER);
+        log::set_max_level(log::LevelFilter::Trace);
     }
     let cmd = args.get(1).map(|s| s.as_str()).unwrap_or("");
     let code = match cmd {
